@@ -3,12 +3,20 @@
 use crate::report::{Run, Tier};
 
 pub mod c01;
+pub mod c02;
 pub mod c03;
+pub mod c10;
+pub mod c14;
+pub mod c15;
 
 pub fn run(id: &str, tier: Tier) -> i32 {
     let run = match id {
         "C01" => { let r = Run::new("C01", tier); c01::run(&r); r }
+        "C02" => { let r = Run::new("C02", tier); c02::run(&r); r }
         "C03" => { let r = Run::new("C03", tier); c03::run(&r); r }
+        "C10" => { let r = Run::new("C10", tier); c10::run(&r); r }
+        "C14" => { let r = Run::new("C14", tier); c14::run(&r); r }
+        "C15" => { let r = Run::new("C15", tier); c15::run(&r); r }
         _ => {
             eprintln!("unknown property id {id}");
             return 2;
@@ -20,6 +28,10 @@ pub fn run(id: &str, tier: Tier) -> i32 {
 pub fn replay_case(id: &str, op: &str, case: &serde_json::Value) -> Result<(), String> {
     match (id, op) {
         (_, "enum_roundtrip") => c01::replay_case(case),
+        (_, "lexical_roundtrip") => c02::replay_case(case),
+        (_, "components") | (_, "lexical_components") => c14::replay_case(case),
+        (_, "conversions_enum") | (_, "conversions_lexical") => c15::replay_case(case),
+        (_, "meaning") => c10::replay_case(case),
         (_, "pipelines_agree") | (_, "vocab_table") => c03::replay_case(case),
         _ => Err(format!("no replayer for property {id} op {op:?}")),
     }
